@@ -60,6 +60,7 @@ class TlcResult:
     wall_s: float
     stdout: str
     cases: list[Any] = field(default_factory=list)
+    case_lines: list[str] = field(default_factory=list)      # raw export lines when run with lazy_cases (parse with parse_case_line)
     coverage: dict[str, int] = field(default_factory=dict)
     cmd: str = ""
 
@@ -81,7 +82,11 @@ def parse_cases(stdout: str, tag: str = "CASE") -> list[Any]:
     return out
 
 
-def run_tlc(module: str, cfg: str | None = None, *, workers: int | str = 1,
+def parse_case_line(line: str, tag: str = "CASE") -> Any:
+    return json.loads(json.loads(line)[len(tag) + 1:])
+
+
+def run_tlc(module: str, cfg: str | None = None, *, lazy_cases: bool = False, workers: int | str = 1,
             timeout: int = 600, simulate: str | None = None, depth: int | None = None,
             coverage: bool = False, env: dict[str, str] | None = None,
             scratch: Path | None = None, expect_violation: bool = False,
@@ -159,7 +164,10 @@ def run_tlc(module: str, cfg: str | None = None, *, workers: int | str = 1,
                              f"(defect of the specification, not of the code):\n{tail}")
     if expect_violation and violated is None:
         raise MachineryError(f"{module}/{cfg}: expected a counterexample (sensitivity test) but TLC found none")
-    res.cases = parse_cases(out)
+    if lazy_cases:            # large exports of which the caller replays a seeded sample: parse only what is picked
+        res.case_lines = [l for l in out.splitlines() if l.startswith('"CASE ')]
+    else:
+        res.cases = parse_cases(out)
     return res
 
 
@@ -210,7 +218,7 @@ class Ctx:
         self.transitions += r.generated
         self.tlc_runs.append({"module": module, "cfg": cfg or module, "distinct": r.distinct,
                               "generated": r.generated, "depth": r.depth, "wall_s": round(r.wall_s, 2),
-                              "violated": r.violated, "cases": len(r.cases),
+                              "violated": r.violated, "cases": len(r.cases) or len(r.case_lines),
                               **({"coverage": r.coverage} if r.coverage else {})})
         return r
 
@@ -228,7 +236,7 @@ class Ctx:
                 self.states += r.distinct
                 self.transitions += r.generated
             self.tlc_runs.append({"module": m, "cfg": c, "distinct": r.distinct, "generated": r.generated, "depth": r.depth,
-                                  "wall_s": round(r.wall_s, 2), "violated": r.violated, "cases": len(r.cases),
+                                  "wall_s": round(r.wall_s, 2), "violated": r.violated, "cases": len(r.cases) or len(r.case_lines),
                                   **({"sensitivity": True} if kw.get("expect_violation") else {})})
         return rs
 
